@@ -400,6 +400,12 @@ func (g *Gen) Traces() ptrace.Traces {
 	}
 	if g.Twins && td.ResourceSpans().Len() > 0 {
 		src := td.ResourceSpans().At(g.R.Intn(td.ResourceSpans().Len()))
+		// the scopes of the twin resources are identical down to a non-empty schema URL
+		for j := 0; j < src.ScopeSpans().Len(); j++ {
+			if src.ScopeSpans().At(j).SchemaUrl() == "" && g.R.Intn(2) == 0 {
+				src.ScopeSpans().At(j).SetSchemaUrl("https://twin/scope")
+			}
+		}
 		dst := td.ResourceSpans().AppendEmpty()
 		src.CopyTo(dst)
 		switch v := g.R.Intn(5); {
@@ -494,6 +500,11 @@ func (g *Gen) Logs() plog.Logs {
 	}
 	if g.Twins && ld.ResourceLogs().Len() > 0 {
 		src := ld.ResourceLogs().At(g.R.Intn(ld.ResourceLogs().Len()))
+		for j := 0; j < src.ScopeLogs().Len(); j++ {
+			if src.ScopeLogs().At(j).SchemaUrl() == "" && g.R.Intn(2) == 0 {
+				src.ScopeLogs().At(j).SetSchemaUrl("https://twin/scope")
+			}
+		}
 		dst := ld.ResourceLogs().AppendEmpty()
 		src.CopyTo(dst)
 		switch v := g.R.Intn(5); {
@@ -581,6 +592,11 @@ func (g *Gen) Metrics() pmetric.Metrics {
 	}
 	if g.Twins && md.ResourceMetrics().Len() > 0 {
 		src := md.ResourceMetrics().At(g.R.Intn(md.ResourceMetrics().Len()))
+		for j := 0; j < src.ScopeMetrics().Len(); j++ {
+			if src.ScopeMetrics().At(j).SchemaUrl() == "" && g.R.Intn(2) == 0 {
+				src.ScopeMetrics().At(j).SetSchemaUrl("https://twin/scope")
+			}
+		}
 		dst := md.ResourceMetrics().AppendEmpty()
 		src.CopyTo(dst)
 		switch v := g.R.Intn(5); {
